@@ -213,7 +213,9 @@ def check_corpus(case):
     else:
         data = text.encode(enc)
     suffix = "." + fmt + (".gz" if case.get("gz") else "")
-    path = os.path.join(tempfile.gettempdir(), "c01_%d_%d%s" % (os.getpid(), next(COUNTER), suffix))
+    # the same file name is rewritten by consecutive cases of this process: a reader (or gunzip) that remembers a
+    # file by its name alone would deliver stale content
+    path = os.path.join(tempfile.gettempdir(), "c01_%d%s" % (os.getpid(), suffix))
     with (gzip.open(path, "wb") if case.get("gz") else open(path, "wb")) as stream:
         stream.write(data)
     try:
@@ -710,3 +712,29 @@ def gen_atheris(ctx):
 
 
 UNITS.append(Unit("atheris_brackets", gen_atheris, check_string, shards=(2, 8)))
+
+
+
+def gen_large(ctx):
+    """a few large files (> 128 kB): guards against anything that depends on buffer or block sizes"""
+    long_words = ["ABCDEFGHIJKLMNOP", "Donaudampfschiff", "x", "und", "Zusammenhangsloses"]
+    for fmt in ["brackets", "discobrackets", "export", "tigerxml"][ctx.shard::ctx.nshards]:
+        trees = []
+        for i in range(1700 if fmt != "tigerxml" else 500):
+            toks = [{"w": long_words[(i + k) % len(long_words)] + str(i % 7), "p": "NN", "n": k + 1, "e": "HD", "lem": "--", "m": "--",
+                     "parts": {"cat": "NN", "gf": "", "gap": "", "co": "", "head": ""}} for k in range(3)]
+            np = {"l": "NP", "e": "SB", "lem": "--", "m": "--", "c": toks[:2], "parts": {"cat": "NP", "gf": "", "gap": "", "co": "", "head": ""}}
+            root = {"l": "VROOT", "e": "--", "lem": "--", "m": "--", "c": [np, toks[2]], "parts": {"cat": "VROOT", "gf": "", "gap": "", "co": "", "head": ""}}
+            trees.append({"sid": i + 1, "root": root})
+        case = {"fmt": fmt, "opts": {"quiet": True}, "trees": trees, "layout": 0, "gz": fmt == "export", "enc": "utf-8", "xmlenc": "utf-8", "v4": True,
+                "emptypos": False, "root_label": True, "tiger_novroot": False}
+        size = len(encode(fmt, case))
+        try:
+            ctx.run_case(check_corpus, case)
+        except Violation as vio:
+            vio = ctx.minimize(vio, lambda c: ctx._quiet(check_corpus, c), lambda c: [dict(c, trees=c["trees"][:len(c["trees"]) // 2]), dict(c, trees=c["trees"][len(c["trees"]) // 2:])] if len(c["trees"]) > 1 else [], budget=30)
+            ctx.record(vio)
+        ctx.count(key=(fmt, size), nontrivial=True, classes=["large:%s:%dkB" % (fmt, size // 1000)])
+
+
+UNITS.append(Unit("large_files", gen_large, check_corpus, shards=(4, 4)))
